@@ -17,6 +17,15 @@ theorem C05_no_input_writes :
     (∀ row ∈ Generated.loadHookEffects, row.2.2 = "") ∧ (∀ row ∈ Generated.convEffects, row.2.2 = "") := by
   constructor <;> decide
 
+/-- … and none of the functions the library *generates* (the per-class `cls_fromdict` / v1 `__dataclass_wizard_from_dict_…` /
+`cls_asdict` / EnvWizard functions captured from the battery `harness/battery15.py` on every run) contains a statement that
+writes through one of its parameters — no item / attribute assignment or deletion rooted in the document it was given, no
+call of a mutating container method on it or on a part of it (AST analysis `harness/gencap.py: param_writes`; the EnvWizard
+constructor filling in `self` excluded). The table is regenerated from the generated code on every run. -/
+theorem C05_generated_no_input_writes :
+    Generated.genParamWrites = [] ∧ 0 < Generated.genFunctionCount := by
+  constructor <;> decide
+
 /-- Soundness at scalar annotations, for *every* JSON input (nan, inf, huge, junk, containers):
 whatever the default engine returns for `int`, `float`, `str`, `bool`, Decimal/Path/UUID/date/time/datetime,
 `timedelta`, an Enum or a `Literal` is a value of that exact type. -/
